@@ -9,7 +9,7 @@ package sender
 // message (with the Done callback that enqueues it) to exactly one plugin which accepted it.
 
 //@ func (*SenderWorker).Process
-//@ props C08 C19
+//@ props C08 C19 C18
 //@ nopanic C13
 //@ requires w != nil && w.aio != nil && w.metrics != nil && w.metrics.AioInFlight != nil && w.metrics.AioTotal != nil && w.plugins != nil && w.targets != nil
 //@ requires sqe != nil && sqe.Submission != nil && sqe.Submission.Sender != nil && sqe.Submission.Sender.Task != nil && sqe.Submission.Sender.Task.Mesg != nil
@@ -34,8 +34,8 @@ package sender
 //@ ensures result0 != nil && result0.Type == "http" ==> result0.Data == jsonmap1("url", urlstring(v))
 // a poll address names the group by the host and the listener id by the whole rest of the path (ids may contain slashes)
 //@ ensures (result0 != nil && result0.Type == "poll") == (result1 && urlpart(v, "Scheme") == "poll")
-//@ ensures [C19 C18] result0 != nil && result0.Type == "poll" && trimprefix(urlpart(v, "Path"), "/") == "" ==> result0.Data == jsonmap1("group", urlpart(v, "Host"))
-//@ ensures [C19 C18] result0 != nil && result0.Type == "poll" && trimprefix(urlpart(v, "Path"), "/") != "" ==> result0.Data == jsonmap2("group", urlpart(v, "Host"), "id", trimprefix(urlpart(v, "Path"), "/"))
+//@ ensures [C19 C18 C20] result0 != nil && result0.Type == "poll" && trimprefix(urlpart(v, "Path"), "/") == "" ==> result0.Data == jsonmap1("group", urlpart(v, "Host"))
+//@ ensures [C19 C18 C20] result0 != nil && result0.Type == "poll" && trimprefix(urlpart(v, "Path"), "/") != "" ==> result0.Data == jsonmap2("group", urlpart(v, "Host"), "id", trimprefix(urlpart(v, "Path"), "/"))
 
 // The target table: after a configured target has been processed, its name resolves to exactly that
 // target (the last definition of a name wins); the built-in default is only added when no target is
